@@ -8,6 +8,7 @@ package memberlist
 
 import (
 	"bytes"
+	"fmt"
 	"net"
 	"sync/atomic"
 	"time"
@@ -681,3 +682,106 @@ func VerifNextSeqNo(m *Memberlist) uint32 { return m.nextSeqNo() }
 
 // VerifNextIncarnation wraps nextIncarnation.
 func VerifNextIncarnation(m *Memberlist) uint32 { return m.nextIncarnation() }
+
+// ---- wire structs, field by field ----
+
+// VerifWire is a flat record of every field of the msgpack-encoded wire structs; Kind selects the
+// struct (ping, indirectPing, ack, nack, err, suspect, alive, dead, pushPullHeader, userMsgHeader,
+// pushNodeState, compress).
+type VerifWire struct {
+	Kind                                    string
+	SeqNo, Incarnation                      uint32
+	Node, From, SourceNode, Name, Error     string
+	Addr, Meta, Payload, Target, SourceAddr []byte
+	Buf, Vsn                                []byte
+	Port, SourcePort                        uint16
+	Nack, Join                              bool
+	Nodes, UserStateLen, UserMsgLen, State  int
+	Algo                                    uint8
+}
+
+func verifWireValue(w *VerifWire) any {
+	switch w.Kind {
+	case "ping":
+		return &ping{SeqNo: w.SeqNo, Node: w.Node, SourceAddr: w.SourceAddr, SourcePort: w.SourcePort, SourceNode: w.SourceNode}
+	case "indirectPing":
+		return &indirectPingReq{SeqNo: w.SeqNo, Target: w.Target, Port: w.Port, Node: w.Node, Nack: w.Nack,
+			SourceAddr: w.SourceAddr, SourcePort: w.SourcePort, SourceNode: w.SourceNode}
+	case "ack":
+		return &ackResp{SeqNo: w.SeqNo, Payload: w.Payload}
+	case "nack":
+		return &nackResp{SeqNo: w.SeqNo}
+	case "err":
+		return &errResp{Error: w.Error}
+	case "suspect":
+		return &suspect{Incarnation: w.Incarnation, Node: w.Node, From: w.From}
+	case "alive":
+		return &alive{Incarnation: w.Incarnation, Node: w.Node, Addr: w.Addr, Port: w.Port, Meta: w.Meta, Vsn: w.Vsn}
+	case "dead":
+		return &dead{Incarnation: w.Incarnation, Node: w.Node, From: w.From}
+	case "pushPullHeader":
+		return &pushPullHeader{Nodes: w.Nodes, UserStateLen: w.UserStateLen, Join: w.Join}
+	case "userMsgHeader":
+		return &userMsgHeader{UserMsgLen: w.UserMsgLen}
+	case "pushNodeState":
+		return &pushNodeState{Name: w.Name, Addr: w.Addr, Port: w.Port, Meta: w.Meta, Incarnation: w.Incarnation,
+			State: NodeStateType(w.State), Vsn: w.Vsn}
+	case "compress":
+		return &compress{Algo: compressionType(w.Algo), Buf: w.Buf}
+	}
+	return nil
+}
+
+// VerifWireEncode encodes the struct selected by w.Kind with encode() and returns the body (without
+// the message type byte).
+func VerifWireEncode(w VerifWire) ([]byte, error) {
+	v := verifWireValue(&w)
+	if v == nil {
+		return nil, fmt.Errorf("unknown kind %q", w.Kind)
+	}
+	buf, err := encode(0, v, false)
+	if err != nil {
+		return nil, err
+	}
+	return buf.Bytes()[1:], nil
+}
+
+// VerifWireDecode decodes body with decode() into the struct selected by kind.
+func VerifWireDecode(kind string, body []byte) (VerifWire, error) {
+	w := VerifWire{Kind: kind}
+	v := verifWireValue(&w)
+	if v == nil {
+		return w, fmt.Errorf("unknown kind %q", kind)
+	}
+	if err := decode(body, v); err != nil {
+		return w, err
+	}
+	switch x := v.(type) {
+	case *ping:
+		w.SeqNo, w.Node, w.SourceAddr, w.SourcePort, w.SourceNode = x.SeqNo, x.Node, x.SourceAddr, x.SourcePort, x.SourceNode
+	case *indirectPingReq:
+		w.SeqNo, w.Target, w.Port, w.Node, w.Nack = x.SeqNo, x.Target, x.Port, x.Node, x.Nack
+		w.SourceAddr, w.SourcePort, w.SourceNode = x.SourceAddr, x.SourcePort, x.SourceNode
+	case *ackResp:
+		w.SeqNo, w.Payload = x.SeqNo, x.Payload
+	case *nackResp:
+		w.SeqNo = x.SeqNo
+	case *errResp:
+		w.Error = x.Error
+	case *suspect:
+		w.Incarnation, w.Node, w.From = x.Incarnation, x.Node, x.From
+	case *alive:
+		w.Incarnation, w.Node, w.Addr, w.Port, w.Meta, w.Vsn = x.Incarnation, x.Node, x.Addr, x.Port, x.Meta, x.Vsn
+	case *dead:
+		w.Incarnation, w.Node, w.From = x.Incarnation, x.Node, x.From
+	case *pushPullHeader:
+		w.Nodes, w.UserStateLen, w.Join = x.Nodes, x.UserStateLen, x.Join
+	case *userMsgHeader:
+		w.UserMsgLen = x.UserMsgLen
+	case *pushNodeState:
+		w.Name, w.Addr, w.Port, w.Meta, w.Incarnation, w.State, w.Vsn = x.Name, x.Addr, x.Port, x.Meta, x.Incarnation, int(x.State), x.Vsn
+	case *compress:
+		w.Algo, w.Buf = uint8(x.Algo), x.Buf
+	}
+	return w, nil
+}
